@@ -116,6 +116,14 @@ package elastic
 //@ define mwf(mb) = ewf(mb.ringBuffer) && linkedlist.lwf(mb.listBuffer)
 //@ define mtotal(mb) = elen(mb.ringBuffer) + mb.listBuffer.bytes
 
+//@ define mempty(mb) = elen(mb.ringBuffer) == 0 && mb.listBuffer.size == 0
+//@ func Buffer.IsEmpty
+//@   props C01 C10 C19
+//@   flags pure
+//@   requires mwf(mb)
+//@   ensures[empty] result == mempty(mb)
+//@   ensures[zero] result ==> mtotal(mb) == 0
+
 //@ func Buffer.Buffered
 //@   props C19
 //@   flags pure
@@ -158,6 +166,7 @@ package elastic
 //@       && (forall q int :: nz(h) + nz(t) <= q && q < len(result) ==> result[q] == linkedlist.lnn(mb.listBuffer, q - nz(h) - nz(t)).buf)
 //@       && (len(result) - nz(h) - nz(t) == mb.listBuffer.size || elen(mb.ringBuffer) + linkedlist.lsm(mb.listBuffer, len(result) - nz(h) - nz(t)) >= pmax(n))
 //@       && (len(result) - nz(h) - nz(t) > 0 ==> elen(mb.ringBuffer) + linkedlist.lsm(mb.listBuffer, len(result) - nz(h) - nz(t) - 1) < pmax(n)))
+//@   ensures[nonempty@C01,C10,C19] !mempty(mb) ==> len(result) >= 1
 
 // Write: the bytes of p go behind everything buffered: a first part (possibly empty, possibly all) behind the ring's
 // bytes, and the rest as one new last chunk of the list; the ring gets nothing while the list holds older bytes.
